@@ -12,10 +12,10 @@ import (
 
 func init() {
 	register(&Property{
-		ID:  "C13",
-		Run: runC13,
+		ID:          "C13",
+		Run:         runC13,
 		Explanation: "Rate conversion by order-type dataflow (predicate abstraction, no execution, no solver): the control flow of Recalculate (with IsValid and the quantity helper inlined) depends on its inputs only through comparisons among 0, minimum and interval := Interval/Quantity and the signs of Interval and Quantity. The abstract state at a program point is the set of order types (sign of Interval, Quantity zero or not, one of the weak orderings of {0, minimum, interval}) still possible there; a branch keeps the order types in which its normalised condition is true resp. false. For every return the rules then demand, in every order type that reaches it: V1 a non-nil error comes with the zero Rate; V2 a nil error comes with Interval > 0 and Quantity > 0 (for the big-integer branch, whose quantity is the recognised floor(Quantity*minimum/Interval), this holds iff interval < minimum strictly - paper lemma L13); V3 Interval >= minimum; V4 Quantity is the constant 1 unless Interval is minimum; V5 each error value is returned only in its region; V6 the division is reached only with Quantity != 0 and Optimize/Flatten pass non-negative constants; V7 the returned numbers are the recognised floors.",
-		NotDecided: []string{"nothing, provided the two definitions are recognised (uint64(I)/Q; big.Int SetUint64/SetInt64, Mul, Quo, IsUint64, Uint64); any other arithmetic is UNDECIDED"},
+		NotDecided:  []string{"nothing, provided the two definitions are recognised (uint64(I)/Q; big.Int SetUint64/SetInt64, Mul, Quo, IsUint64, Uint64); any other arithmetic is UNDECIDED"},
 	})
 }
 
